@@ -28,6 +28,28 @@ type Tree struct {
 	Levels [][][]byte // Levels[j][i] = node <<j,i>>
 	index  map[[32]byte]Node
 	Seam   bool
+	// Light: no reverse index (very tall trees): only ProjectAuth is available, which compares a
+	// signature's authentication path with the true siblings level by level
+	Light bool
+}
+
+// ProjectAuth projects the authentication path of a signature made at idx: level j is <<j, sibling>>
+// when its bytes are the true sibling's, Zero when all zero, Bad otherwise.
+func (t *Tree) ProjectAuth(idx uint32, auth []byte) []Node {
+	out := make([]Node, 0, t.H)
+	for j := 0; j < t.H && 32*(j+1) <= len(auth); j++ {
+		v := auth[32*j : 32*j+32]
+		sib := int(idx>>uint(j)) ^ 1
+		switch {
+		case sib < len(t.Levels[j]) && bytes.Equal(v, t.Levels[j][sib]):
+			out = append(out, Node{j, sib})
+		case bytes.Equal(v, zero32[:]):
+			out = append(out, Zero)
+		default:
+			out = append(out, Bad)
+		}
+	}
+	return out
 }
 
 // SeamLeaf is the synthetic leaf used when the leaf seam is installed: cheap,
@@ -43,8 +65,20 @@ func SeamLeaf(tag uint64, idx uint32) []byte {
 
 // Build computes all 2^h leaves and all inner nodes. leafFn(i) yields leaf i.
 func Build(h int, hf xmss.HashFunction, pubSeed []byte, leafFn func(i uint32) []byte) *Tree {
+	return build(h, hf, pubSeed, leafFn, false)
+}
+
+// BuildLight is Build without the reverse index.
+func BuildLight(h int, hf xmss.HashFunction, pubSeed []byte, leafFn func(i uint32) []byte) *Tree {
+	return build(h, hf, pubSeed, leafFn, true)
+}
+
+func build(h int, hf xmss.HashFunction, pubSeed []byte, leafFn func(i uint32) []byte, light bool) *Tree {
 	n := 1 << uint(h)
-	t := &Tree{H: h, Hf: hf, index: make(map[[32]byte]Node, 2*n)}
+	t := &Tree{H: h, Hf: hf, Light: light}
+	if !light {
+		t.index = make(map[[32]byte]Node, 2*n)
+	}
 	leaves := make([][]byte, n)
 	var wg sync.WaitGroup
 	workers := runtime.NumCPU()
@@ -67,19 +101,32 @@ func Build(h int, hf xmss.HashFunction, pubSeed []byte, leafFn func(i uint32) []
 	for j := 0; j < h; j++ {
 		prev := t.Levels[j]
 		cur := make([][]byte, len(prev)/2)
-		for i := range cur {
-			var addr [8]uint32
-			addr[3] = 2
-			addr[5] = uint32(j)
-			addr[6] = uint32(i)
-			in := append(append([]byte{}, prev[2*i]...), prev[2*i+1]...)
-			out := make([]byte, 32)
-			xmss.VerifHashH(hf, out, in, pubSeed, &addr)
-			cur[i] = out
+		var wg2 sync.WaitGroup
+		nw := runtime.NumCPU()
+		for w := 0; w < nw; w++ {
+			w := w
+			wg2.Add(1)
+			go func() {
+				defer wg2.Done()
+				for i := w; i < len(cur); i += nw {
+					var addr [8]uint32
+					addr[3] = 2
+					addr[5] = uint32(j)
+					addr[6] = uint32(i)
+					in := append(append([]byte{}, prev[2*i]...), prev[2*i+1]...)
+					out := make([]byte, 32)
+					xmss.VerifHashH(hf, out, in, pubSeed, &addr)
+					cur[i] = out
+				}
+			}()
 		}
+		wg2.Wait()
 		t.Levels = append(t.Levels, cur)
 	}
 	for j, lv := range t.Levels {
+		if light {
+			break
+		}
 		for i, v := range lv {
 			var k [32]byte
 			copy(k[:], v)
@@ -105,7 +152,7 @@ func (t *Tree) Root() []byte { return t.Levels[t.H][0] }
 var zero32 [32]byte
 
 func (t *Tree) Project(v []byte) Node {
-	if len(v) != 32 {
+	if len(v) != 32 || t.Light {
 		return Bad
 	}
 	if bytes.Equal(v, zero32[:]) {
@@ -160,6 +207,25 @@ func (t *Tree) ProjectState(s *xmss.VerifState) State {
 	}
 	for _, th := range s.TreeHash {
 		st.TH = append(st.TH, TH{int(th.H), int(th.NextIdx), int(th.StackUsage), int(th.Completed), t.Project(th.Node)})
+	}
+	return st
+}
+
+// ZeroState is the projected form of a state whose slots were blanked (light trees).
+func (t *Tree) ZeroState(s *xmss.VerifState) State {
+	z := func(n int) []Node {
+		o := make([]Node, n)
+		for i := range o {
+			o[i] = Zero
+		}
+		return o
+	}
+	st := State{Stack: z(len(s.Stack) / 32), Auth: z(len(s.Auth) / 32), Keep: z(len(s.Keep) / 32), Retain: z(len(s.Retain) / 32)}
+	for range s.StackLevels {
+		st.StackLevels = append(st.StackLevels, 0)
+	}
+	for range s.TreeHash {
+		st.TH = append(st.TH, TH{Node: Zero})
 	}
 	return st
 }
